@@ -29,4 +29,11 @@ PROPS = {
  "C18": dict(cfgs=quick8,
    scope=lambda t: "x<<r and x>>r for x in S(w,r), r in {INT_MIN, INT_MIN+1, -2^30, -65536, -130..63}, plus every count of a dense range down to INT_MIN (thorough) for 16 representative x; & on S^2",
    assumptions=COMMON_ASSUMPTIONS + ["shift counts above 63 are outside the property's domain and are not executed"]),
+ "C04": dict(cfgs=quick8,
+   scope=lambda t: "every value of int8/uint8/int16/uint16; every value of int32/uint32 (constructor in quick, all entry points in thorough); S-shaped and boundary-window values of int64/uint64; fixed->T over S u windows at every target limit u a dense interval, 8 targets x 3 entry points; implicit promotion through +,-,+= with a zero operand; round trip",
+   assumptions=COMMON_ASSUMPTIONS + ["64-bit integer operands are covered only on S(w,r) and windows around 0, +-2^31, +-2^32, 2^63, 2^64-1"]),
+ "C05": dict(cfgs=quick8,
+   scope=lambda t: "float->fixed over ALL 2^32 bit patterns (2 configurations quick, all thorough) and a structured subset everywhere; double->fixed over all exponents x mantissa edge patterns, exact ties and ulp-neighbours, boundary windows; fixed->float/double over S, format halfway points and a dense interval; fixed->double->fixed round trip",
+   assumptions=COMMON_ASSUMPTIONS + ["the 2^64 double patterns are covered only on the structured subset described in coverage.bound",
+      "property text conflict on (2^31-1) <= |x| < 2^31: the NaN clause is applied there, the round-trip clause below (DESIGN section 7)"]),
 }
